@@ -45,6 +45,10 @@ impl StorageSnapshot {
         }
     }
 
+    pub(crate) fn tombstoned_node_count(&self) -> usize {
+        self.tombstoned_nodes.len()
+    }
+
     fn cached_stats_clone(&self) -> Option<crate::stats::GraphStatistics> {
         self.ensure_stats_cache_loaded();
         vlock!("stats_cache", self.stats_cache);
